@@ -24,8 +24,9 @@ from vfw.engine import Violation
 PAUSE, PLAY, KILL, RESUME, FAIL, CS_OK, CS_RAISE, CANCEL = range(8)
 ACT_NAMES = ['pause', 'play', 'kill', 'resume', 'fail', 'call_soon_ok', 'call_soon_raise', 'future_cancel']
 # where a request is issued
-GAP, L_RUNNING, L_WAITING, L_PAUSED, L_PLAYED = range(5)
-WHERE_NAMES = ['gap', 'on_process_running', 'on_process_waiting', 'on_process_paused', 'on_process_played']
+GAP, L_RUNNING, L_WAITING, L_PAUSED, L_PLAYED, H_ENTERING, H_EXITING = range(7)
+WHERE_NAMES = ['gap', 'on_process_running', 'on_process_waiting', 'on_process_paused', 'on_process_played',
+               'entering_state_callback', 'exiting_state_callback']
 
 S = ps.ProcessState
 
@@ -103,6 +104,7 @@ class Run:
         self.loop = fresh_loop()
         self.notes: List[tuple] = []
         self.lcount: Dict[int, int] = {}
+        self._applying: List[Req] = []
         self.entered: List[tuple] = []      # (from_label, to_label, tick) from the public ENTERED_STATE hook
         self.samples: List[Any] = []        # state label after every tick / request
         self.cleanups = {'a': 0, 'b': 0}
@@ -120,6 +122,10 @@ class Run:
         if attach_listener:
             p.add_process_listener(self.listener)
         p.add_state_event_callback(StateEventHook.ENTERED_STATE, self._entered)
+        if any(r.where in (H_ENTERING, H_EXITING) for r in reqs):
+            # requests issued from the public state-event callbacks, i.e. before the new state is in place
+            p.add_state_event_callback(StateEventHook.ENTERING_STATE, lambda *_a: self._hook(H_ENTERING))
+            p.add_state_event_callback(StateEventHook.EXITING_STATE, lambda *_a: self._hook(H_EXITING))
         p.add_cleanup(lambda: self._cleanup('a'))
         self.future = p.future()
         self.task = self.loop.create_task(p.step_until_terminated())
@@ -134,6 +140,13 @@ class Run:
     def _entered(self, sm, _hook, from_state) -> None:
         frm = from_state.LABEL if from_state is not None else None
         self.entered.append((frm, sm.state, self.tick))
+
+    def _hook(self, kind: int) -> None:
+        occ = self.lcount.get(kind, 0)
+        self.lcount[kind] = occ + 1
+        for r in self.reqs:
+            if not r.applied and r.where == kind and r.pos == occ:
+                self.apply(r)
 
     def sample(self) -> None:
         p = self.proc
@@ -153,6 +166,10 @@ class Run:
         r.applied = True
         r.tick = self.tick
         self.events.append(('req', r, len(programs.TRACE)))
+        r.nested = []                       # requests issued (from a listener/hook) while this one is being carried out
+        for outer in self._applying:
+            outer.nested.append(r)
+        self._applying.append(r)
         wf = getattr(getattr(p, '_state', None), '_waiting_future', None)
         r.queue_len = self.loop.pending()
         r.pre = dict(
@@ -187,6 +204,8 @@ class Run:
                 r.ret = p.future().cancel()
         except Exception as e:  # noqa: BLE001
             r.exc = e
+        finally:
+            self._applying.pop()
         r.post_state = p.state
         r.post_paused = p.paused
         self.sample()
